@@ -1,12 +1,19 @@
 import Driver.Util
 import RadicaleModel.Fold
 import RadicaleModel.Export
+import RadicaleModel.TextValue
 open Lean Radicale
 namespace Driver
 
 /-- {"s":[code points]} → physical lines, what the reader yields for them, `safe`, `isBlank` of the input;
     {"lines":[[…],…]} → what the reader yields for these physical lines -/
 def handleFold (j : Json) : Json :=
+  if getS j "op" == "textvalue" then
+    -- {"op":"textvalue","s":chars} → the elements the value reader yields, and the escaped form of `s`
+    let s := getStr j "s"
+    obj [("values", Json.arr ((TextValue.readValues s).map jStr).toArray), ("escaped", jStr (TextValue.escape s)),
+         ("stored", jStr (TextValue.stored s))]
+  else
   match j.getObjVal? "items" with
   | .ok (Json.arr its) =>
     -- {"items":[[line,…],…]} → what the whole-calendar export inserts before END:VCALENDAR, and the TZIDs it kept
